@@ -393,6 +393,36 @@ func isVarOrConst(o types.Object) bool {
 	return false
 }
 
+// exportedName returns the property of $pkg under which a function or a type
+// is exported to other packages.
+//
+// A type declared inside a function may reach another package as a type
+// argument. Its name is not unique in its package, so it is exported with the
+// index it has among the function-local types of the same name, in the order of
+// the scopes of the package.
+func exportedName(o types.Object) string {
+	tn, isType := o.(*types.TypeName)
+	if !isType || o.Pkg() == nil || o.Parent() == nil || o.Parent() == o.Pkg().Scope() {
+		return encodeIdent(o.Name())
+	}
+	index, found := 0, false
+	var walk func(s *types.Scope)
+	walk = func(s *types.Scope) {
+		if other, ok := s.Lookup(tn.Name()).(*types.TypeName); ok && s != o.Pkg().Scope() {
+			index++
+			if other == tn {
+				found = true
+				return
+			}
+		}
+		for i := 0; i < s.NumChildren() && !found; i++ {
+			walk(s.Child(i))
+		}
+	}
+	walk(o.Pkg().Scope())
+	return fmt.Sprintf("$local$%d$%s", index, encodeIdent(o.Name()))
+}
+
 func isPkgLevel(o types.Object) bool {
 	// Note: named types are always assigned a variable at package level to be
 	// initialized with the rest of the package types, even the types declared
@@ -430,7 +460,7 @@ func (fc *funcContext) objectName(o types.Object) string {
 		if o.Pkg() != fc.pkgCtx.Pkg || (isVarOrConst(o) && o.Exported()) {
 			if !isVarOrConst(o) {
 				// Functions and types are exported under their encoded name.
-				return fc.pkgVar(o.Pkg()) + "." + encodeIdent(o.Name())
+				return fc.pkgVar(o.Pkg()) + "." + exportedName(o)
 			}
 			return fc.pkgVar(o.Pkg()) + "." + o.Name()
 		}
